@@ -295,3 +295,41 @@ pub fn text_attr(
             .collect(),
     ))
 }
+
+/// `Transformer::write_root_svg` on a root element given as attribute pairs:
+/// returns the start tag written (bytes as a string).
+pub fn root_attrs(
+    attrs: &[(String, String)],
+    bbox: Option<(f32, f32, f32, f32)>,
+    border: u16,
+    scale: f32,
+    local_id: Option<&str>,
+    svg_style: Option<&str>,
+) -> Result<String, &'static str> {
+    let cfg = TransformConfig {
+        border,
+        scale,
+        svg_style: svg_style.map(|s| s.to_owned()),
+        ..Default::default()
+    };
+    let mut t = Transformer::from_config(&cfg);
+    t.context.local_style_id = local_id.map(|s| s.to_owned());
+    t.verif_write_root_svg(attrs, bbox)
+        .map(|b| String::from_utf8_lossy(&b).into_owned())
+        .map_err(|e| errkind(&e))
+}
+
+/// The extent accumulated by `process_events` over a whole document (before the
+/// border expansion and rounding of `write_root_svg`).
+pub fn doc_extent(
+    input: &str,
+    cfg: &TransformConfig,
+) -> Result<Option<(f32, f32, f32, f32)>, Vec<&'static str>> {
+    use std::str::FromStr;
+    let mut t = Transformer::from_config(cfg);
+    let input = crate::events::InputList::from_str(input).map_err(|e| errkinds(&e))?;
+    t.context.set_events(input.events.clone());
+    let (_, bbox) =
+        crate::transform::process_events(input, &mut t.context).map_err(|e| errkinds(&e))?;
+    Ok(bbox.map(|b| (b.x1, b.y1, b.x2, b.y2)))
+}
